@@ -17,7 +17,11 @@ CHECKS = {
          "6 C01", "The chrono and chrono-tz codecs are inside the theorem: what chrono accepts (calendar, leap seconds, ranges, "
          "offsets, the 596 zone names) is written out in Calendar.v/TzNames.v as oracles whose agreement with the crates is "
          "sampled on every boundary (C05 calendar grid) and, for the names, compared on every run; DateTime<Local> under "
-         "TZ=UTC. Not modelled: BigDecimal's decimal text (implementation-only stream). " + TB),
+         "TZ=UTC. BigDecimal is inside the theorem too: the decimal text the bigdecimal crate renders and parses "
+         "(Display, FromStr, num-bigint's integer parser, i128::from_str) is written out in BigDec.v as an oracle and "
+         "proved to round-trip for every integer and every i64 scale (C01_bigdecimal_text, BigDecLemmas.v); its agreement "
+         "with the crates is sampled by a value stream and a text stream on every run. C01_injective: distinct values "
+         "never share an encoding. " + TB),
  "C02": ("Theorem over ALL declaration environments (records, enums, transient/optional fields, evolution steps on "
          "structs and variants, sorted constructors, recursion) and values: decode(encode v) = v with transient fields "
          "reset (RecordRt.rt_record_v0, RecordChunked.rt_record_chunked: header parse, chunk cutting, field loop). Tie: "
@@ -49,8 +53,9 @@ CHECKS = {
          "6 C04", "There is a single encoder model, so 'B.serialize = A.encode' is by construction and the tie to the code is "
          "the correspondence run. External anchors: the Scala-written golden file (the reference decoder reads the value the "
          "implementation reads; the reference encoding of that value differs from Scala's only in the size form of one list "
-         "and one repeated header name and is read back as the same value) and the Point vector. BigDecimal's text not "
-         "modelled. " + TB),
+         "and one repeated header name and is read back as the same value) and the Point vector. BigDecimal's layout "
+         "(String of the decimal text, trailing zeros included) is checked against an independent Python rendering as "
+         "well as against the model (BigDec.v). " + TB),
  "C05": ("Theorems: the top-level decoder over the DeserializationContext model (usize arithmetic with explicit Panic, "
          "region stack, index/slice/unwrap) never panics for any bytes and any well-formed type (TotalProofs + SimProofs: "
          "layer B simulates layer A); the three sources answer every count in N like the reference source; TERMINATION "
@@ -74,7 +79,8 @@ CHECKS = {
          "be excluded from a bound on the input (C06_denotes_evolved classifies the writer's outcomes). Hypothesis defaults_wf: "
          "declared defaults are values of their fields' types (Rust's type checker). " + TB),
  "C07": ("Theorems: for all suffixes s decode(encode v ++ s) leaves exactly s; consecutive values are read back "
-         "consecutively; any accepted input is consumed as a prefix and is suffix-independent (TruncProofs.decA_stable).",
+         "consecutively; any accepted input is consumed as a prefix and is suffix-independent (TruncProofs.decA_stable); the "
+         "code is prefix-free (C07_prefix_free: no encoding of a type is a strict prefix of another).",
          "6 C07", "Cross-version (evolved reader/writer) self-delimitation is part of C03. " + TB),
  "C08": ("Theorems: every strict prefix of every encoding is an error on layers A and B; more generally cutting "
          "inside what any successful decode consumed yields an error; C08_cross_version: prefixes of version-kw data are "
@@ -107,7 +113,8 @@ CHECKS = {
          "dedicated errors in both directions. Tie: static route (real derive macro on the compiled catalogue: families "
          "E, E+1, E+2, sorted families, transient positions) and dynamic route with random extensions.",
          "6 C13", TB),
- "C14": ("Theorems: values agreeing on non-transient fields encode identically (bytes, table, errors); decoding yields "
+ "C14": ("Theorems: values agreeing on non-transient fields encode identically (bytes, table, errors) and conversely "
+         "values with the same bytes differ at most in transient fields (C14_only_transients_are_dropped); decoding yields "
          "the declared defaults (normv); transient constructor -> SerializingTransientConstructor; declarations whose "
          "FieldMadeOptional names are written or removed/transient never fail with UnknownFieldReference. Tie: static and "
          "dynamic pairs differing only in transient fields; histories containing FieldMadeTransient.",
